@@ -1,0 +1,109 @@
+//go:build verif
+
+// Machine-checked contracts for this package (comment-only; compiled only with
+// the build tag `verif`). Read by /verif/engine (govc); see /verif/DESIGN.md.
+package codegen
+
+// ---- operator and type spellings (C03, C08) ------------------------------------------
+//
+// WGSL operator -> HLSL operator token with the same meaning on scalars and
+// vectors (HLSL % on floats is fmod: truncated, sign of the dividend, as WGSL).
+//
+//@ func binaryOpStr
+//@   mode bv
+//@   tags C03 C08
+//@   ensures [add] op == ir.BinaryAdd ==> result == "+"
+//@   ensures [sub] op == ir.BinarySubtract ==> result == "-"
+//@   ensures [mul] op == ir.BinaryMultiply ==> result == "*"
+//@   ensures [div] op == ir.BinaryDivide ==> result == "/"
+//@   ensures [mod] op == ir.BinaryModulo ==> result == "%"
+//@   ensures [eq] op == ir.BinaryEqual ==> result == "=="
+//@   ensures [ne] op == ir.BinaryNotEqual ==> result == "!="
+//@   ensures [lt] op == ir.BinaryLess ==> result == "<"
+//@   ensures [le] op == ir.BinaryLessEqual ==> result == "<="
+//@   ensures [gt] op == ir.BinaryGreater ==> result == ">"
+//@   ensures [ge] op == ir.BinaryGreaterEqual ==> result == ">="
+//@   ensures [and] op == ir.BinaryAnd ==> result == "&"
+//@   ensures [xor] op == ir.BinaryExclusiveOr ==> result == "^"
+//@   ensures [or] op == ir.BinaryInclusiveOr ==> result == "|"
+//@   ensures [land] op == ir.BinaryLogicalAnd ==> result == "&&"
+//@   ensures [lor] op == ir.BinaryLogicalOr ==> result == "||"
+//@   ensures [shl] op == ir.BinaryShiftLeft ==> result == "<<"
+//@   ensures [shr] op == ir.BinaryShiftRight ==> result == ">>"
+//@   pure
+//@   nopanic
+//
+//@ func ScalarToHLSL
+//@   mode bv
+//@   tags C03 C08
+//@   ensures [bool] s.Kind == ir.ScalarBool ==> result == "bool"
+//@   ensures [i32] s.Kind == ir.ScalarSint && s.Width == 4 ==> result == "int"
+//@   ensures [i64] s.Kind == ir.ScalarSint && s.Width == 8 ==> result == "int64_t"
+//@   ensures [u32] s.Kind == ir.ScalarUint && s.Width == 4 ==> result == "uint"
+//@   ensures [u64] s.Kind == ir.ScalarUint && s.Width == 8 ==> result == "uint64_t"
+//@   ensures [f16] s.Kind == ir.ScalarFloat && s.Width == 2 ==> result == "half"
+//@   ensures [f32] s.Kind == ir.ScalarFloat && s.Width == 4 ==> result == "float"
+//@   ensures [f64] s.Kind == ir.ScalarFloat && s.Width == 8 ==> result == "double"
+//@   pure
+//@   nopanic
+//
+//@ func scalarKindToHLSL
+//@   mode bv
+//@   tags C03 C08
+//@   ensures [bool] kind == ir.ScalarBool ==> result == "bool"
+//@   ensures [i32] kind == ir.ScalarSint && width == 4 ==> result == "int"
+//@   ensures [i64] kind == ir.ScalarSint && width == 8 ==> result == "int64_t"
+//@   ensures [u32] kind == ir.ScalarUint && width == 4 ==> result == "uint"
+//@   ensures [u64] kind == ir.ScalarUint && width == 8 ==> result == "uint64_t"
+//@   ensures [f16] kind == ir.ScalarFloat && width == 2 ==> result == "half"
+//@   ensures [f32] kind == ir.ScalarFloat && width == 4 ==> result == "float"
+//@   ensures [f64] kind == ir.ScalarFloat && width == 8 ==> result == "double"
+//@   pure
+//@   nopanic
+//
+// Bit reinterpretation when loading from / storing to a byte-address buffer.
+//
+//@ func ScalarCast
+//@   mode bv
+//@   tags C03 C07
+//@   ensures [float] k == ir.ScalarFloat ==> result == "asfloat"
+//@   ensures [sint] k == ir.ScalarSint ==> result == "asint"
+//@   ensures [uint] k == ir.ScalarUint ==> result == "asuint"
+//@   pure
+//@   nopanic
+//
+// ---- byte-address arithmetic (C03, C07) -------------------------------------------------
+//
+// A storage access path is lowered to a sum of byte steps. Each step must be the
+// WGSL byte offset of the selected sub-object inside its parent: struct member
+// -> the member's IR offset; array element -> index * stride; vector component
+// -> index * scalar size; matrix column -> index * AlignOf(vecR) (2w for R=2,
+// 4w for R=3,4); a dynamic index uses the same stride with the index expression.
+//
+//@ func alignmentFromVectorSize
+//@   mode bv
+//@   tags C03 C07
+//@   ensures [vec2] size == ir.Vec2 ==> result == 2
+//@   ensures [vec3] size == ir.Vec3 ==> result == 4
+//@   ensures [vec4] size == ir.Vec4 ==> result == 4
+//@   pure
+//@   nopanic
+//
+//@ func alignedOffset
+//@   mode bv
+//@   tags C03 C07
+//@   ensures [round-up] alignment != 0 && (alignment & (alignment - 1)) == 0 && offset <= 0x7FFFFFFF && alignment <= 0x10000 ==> (result & (alignment - 1)) == 0 && result >= offset && result - offset < alignment
+//@   ensures [no-alignment] alignment == 0 ==> result == offset
+//@   pure
+//@   nopanic
+//
+//@ func (*Writer).computeSubAccess
+//@   mode bv
+//@   tags C03 C07
+//@   at return assert [struct-member] result1 == nil && is(baseInner, ir.StructType) ==> int(constIndex) < len(baseInner.(ir.StructType).Members) && result0.kind == subAccessOffset && result0.offset == baseInner.(ir.StructType).Members[int(constIndex)].Offset
+//@   at return assert [array-const] result1 == nil && is(baseInner, ir.ArrayType) && !isRuntime ==> result0.kind == subAccessOffset && result0.offset == baseInner.(ir.ArrayType).Stride * constIndex
+//@   at return assert [array-dynamic] result1 == nil && is(baseInner, ir.ArrayType) && isRuntime ==> result0.kind == subAccessIndex && result0.value == runtimeIndex && result0.stride == baseInner.(ir.ArrayType).Stride
+//@   at return assert [vector-const] result1 == nil && is(baseInner, ir.VectorType) && !isRuntime ==> result0.kind == subAccessOffset && result0.offset == uint32(baseInner.(ir.VectorType).Scalar.Width) * constIndex
+//@   at return assert [vector-dynamic] result1 == nil && is(baseInner, ir.VectorType) && isRuntime ==> result0.kind == subAccessIndex && result0.value == runtimeIndex && result0.stride == uint32(baseInner.(ir.VectorType).Scalar.Width)
+//@   at return assert [matrix-const] result1 == nil && is(baseInner, ir.MatrixType) && !isRuntime && baseInner.(ir.MatrixType).Rows >= 2 && baseInner.(ir.MatrixType).Rows <= 4 ==> result0.kind == subAccessOffset && result0.offset == ite(baseInner.(ir.MatrixType).Rows == ir.Vec2, uint32(2), uint32(4)) * uint32(baseInner.(ir.MatrixType).Scalar.Width) * constIndex
+//@   at return assert [matrix-dynamic] result1 == nil && is(baseInner, ir.MatrixType) && isRuntime && baseInner.(ir.MatrixType).Rows >= 2 && baseInner.(ir.MatrixType).Rows <= 4 ==> result0.kind == subAccessIndex && result0.value == runtimeIndex && result0.stride == ite(baseInner.(ir.MatrixType).Rows == ir.Vec2, uint32(2), uint32(4)) * uint32(baseInner.(ir.MatrixType).Scalar.Width)
